@@ -196,6 +196,16 @@ def skeleton(f):
             if s.get("pruned") or s["when"] not in ("true", "false"):
                 continue
             if fail_target(s["to"]):
+                # comparisons in normal form with the truth value folded in: `a > b` on the true edge and `a <= b` on the
+                # false edge are the same refusal; scalar locals that are only their initialiser are read through
+                from lib.norm import cmp_norm
+                nf = cmp_norm(C.subst_inits(c0, inits), s["when"] == "true")
+                if nf is not None and nf[0] in ("lt", "le"):
+                    terms = set(t.replace("this.", "") for t in nf[1])
+                    if terms in ({"+get_max_input_length()", "-get_href_size()"}, {"+get_max_input_length()", "-buffer.size()"},
+                                 {"+get_max_input_length()", "-this.buffer.size()"}) and nf[0] == "lt" and nf[2] == 0:
+                        conds[("HREF_TOO_LONG", "true")] += 1
+                        continue
                 t = c19.canon(X.show(c0))
                 t = re.sub(r"\((get_href_size|buffer\.size)\(\) > ada::get_max_input_length\(\)\)", "HREF_TOO_LONG", t)
                 if "any_of" in t and "is_forbidden_domain_code_point" in t:
